@@ -97,11 +97,14 @@ SumCores(S) == IF S = {} THEN 0 ELSE LET x == CHOOSE y \in S : TRUE IN Cores(x[1
 \* C04: no command twice; nothing executes that is not an expected task; nothing received
 \* on a port that was not sent to it, per sender in order
 M_C04_Once == \A k \in DOMAIN execs : execs[k] <= 1
-M_C04_OnlyExpected == \A k \in DOMAIN execs : k \in ExpKeys
+\* (for merge-sensitive graphs - a process with several ports receives a merged stream - the pairing of items across
+\*  ports legitimately depends on the merge order: only counts are compared there; restriction of this oracle)
+MI == Exp.mergeinsensitive
+M_C04_OnlyExpected == MI => \A k \in DOMAIN execs : k \in ExpKeys
 M_C04_AtReturn == st = "returned" =>
-     /\ DOMAIN execs = ToSet(Exp.execkeys)
-     /\ \A p \in DOMAIN created : \A i \in DOMAIN created[p] : created[p][i].key \in ExpKeys
-     /\ AllCreated = ExpKeys
+     /\ MI => DOMAIN execs = ToSet(Exp.execkeys)
+     /\ MI => AllCreated = ExpKeys
+     /\ Cardinality(AllCreated) = Cardinality(ExpKeys)
 
 \* C05: at return every created task is done, every started process has exited, nothing runs
 M_C05_NoEarly == st = "returned" =>
@@ -137,10 +140,10 @@ M_C09_EndStatus == (st = "ended" /\ l > 1 /\ Trace[l-1].e = "end") =>
        /\ e.completed => e.exit = 0
 
 \* C02: tasks whose outputs pre-exist never execute
-M_C02_NoReexec == \A k \in DOMAIN execs : k \in ExpKeys => OutsOfKey(k) \cap Pre = {}
+M_C02_NoReexec == MI => \A k \in DOMAIN execs : k \in ExpKeys => OutsOfKey(k) \cap Pre = {}
 
 \* C16: only processes of the run set execute anything
-M_C16_Closure == \A k \in DOMAIN execs : k \in ExpKeys /\ ExpTask(k).proc \in ToSet(Exp.runset)
+M_C16_Closure == MI => \A k \in DOMAIN execs : k \in ExpKeys /\ ExpTask(k).proc \in ToSet(Exp.runset)
 
 ASSUME TLCSet(1, 0)
 HW == IF l > TLCGet(1) THEN TLCSet(1, l) ELSE TRUE
